@@ -111,6 +111,7 @@ func runC09(s *kernel.Sim) {
 
 	// reference: passes per (remedy, group, grid window)
 	counts := map[string]int64{}
+	fuzzy := map[string]bool{} // windows in which the attribution of some passes is open (see bursts)
 	// Window size changes: a counter learns of the new size at the first request of
 	// its group after the change. From then on the new grid applies; what passed
 	// before is not held against the new configuration (no implementation that
@@ -199,18 +200,42 @@ func runC09(s *kernel.Sim) {
 			if !r.grouped {
 				grp = ""
 			}
-			res := make([]verdict, nb)
+			// a burst; in a third of them some requests are held at a lock site while the
+			// clock crosses the end of the window and further requests arrive
+			res := make([]verdict, 0, 2*nb)
+			type span struct{ kFrom, kTo int64 }
+			var spans []span
 			inBurst = true
-			for i := 0; i < nb; i++ {
-				i := i
-				n++
-				id := fmt.Sprintf("t%d", n)
-				s.Spawn(id, func() { res[i] = call(r, grp, id) })
+			spawn := func(cnt int) {
+				for i := 0; i < cnt; i++ {
+					idx := len(res)
+					res = append(res, verdict{})
+					spans = append(spans, span{})
+					n++
+					id := fmt.Sprintf("t%d", n)
+					s.Spawn(id, func() {
+						spans[idx].kFrom = time.Now().UnixNano() / int64(W)
+						res[idx] = call(r, grp, id)
+						spans[idx].kTo = time.Now().UnixNano() / int64(W)
+					})
+				}
 			}
-			for st := 0; st < 2000; st++ {
+			spawn(nb)
+			hold := tp.Chance(1, 3)
+			held := false
+			for st := 0; st < 3000; st++ {
 				p := s.ParkedTasks()
 				if len(p) == 0 {
 					break
+				}
+				if hold && !held && st >= 1 && tp.Chance(1, 4) {
+					held = true
+					nowU := time.Now().UnixNano()
+					next := (nowU/int64(W) + 1) * int64(W)
+					s.Sleep(time.Duration(next-nowU) + time.Duration(tp.Choose(3))*time.Millisecond)
+					spawn(tp.Range(1, 3))
+					s.FaultFired("request_held_across_window_end")
+					continue
 				}
 				s.Resume(p[tp.Choose(len(p))])
 			}
@@ -223,14 +248,49 @@ func runC09(s *kernel.Sim) {
 					passes++
 				}
 			}
-			s.Event("burst", r.name, grp, fmt.Sprintf("n=%d passes=%d", nb, passes))
-			if counted {
+			s.Event("burst", r.name, grp, fmt.Sprintf("n=%d passes=%d held=%v", len(res), passes, held))
+			if counted && !held {
 				key, _ := model(r, grp, k)
 				s.Rule("R1")
 				if counts[key]+passes > lim {
 					s.Violate("R1", "window-exceeded-concurrent", "remedy %s group %q grid window %d: %d passed before + %d passed concurrently > limit %d", r.name, grp, k, counts[key], passes, lim)
 				}
 				counts[key] += passes
+				s.Nontrivial()
+			}
+			if counted && held {
+				// a request that was under way while the window ended may be counted in
+				// either window; the others belong to the window they ran in
+				k2 := k + 1
+				key1, _ := model(r, grp, k)
+				key2, _ := model(r, grp, k2)
+				f1, f2, flex := counts[key1], counts[key2], int64(0)
+				for i, v := range res {
+					if !v.pass {
+						continue
+					}
+					switch {
+					case spans[i].kTo <= k:
+						f1++
+					case spans[i].kFrom >= k2:
+						f2++
+					default:
+						flex++
+					}
+				}
+				s.Rule("R1")
+				if f1 > lim || f2 > lim || f1+f2+flex > 2*lim {
+					s.Violate("R1", "window-exceeded-concurrent", "remedy %s group %q: %d passed in grid window %d, %d in window %d and %d were under way while the window ended; at most %d may pass per window", r.name, grp, f1, k, f2, k2, flex, lim)
+				}
+				room := lim - f1
+				if room < 0 {
+					room = 0
+				}
+				if flex < room {
+					room = flex
+				}
+				counts[key1], counts[key2] = f1+room, f2+flex-room
+				fuzzy[key1], fuzzy[key2] = true, true
 				s.Nontrivial()
 			}
 			continue
@@ -268,7 +328,7 @@ func runC09(s *kernel.Sim) {
 		switch {
 		case v.pass && counts[key] >= lim:
 			s.Violate("R1", "window-exceeded", "remedy %s group %q: request at offset %v of grid window %d (length %v) passed although %d of %d already passed in that window", r.name, grp, off, k, W, counts[key], lim)
-		case !v.pass && counts[key] < lim && exact:
+		case !v.pass && counts[key] < lim && exact && !fuzzy[key]:
 			s.Violate("R2", "spurious-rejection", "remedy %s group %q: request at offset %v of grid window %d (length %v) rejected although only %d of %d passed in that window", r.name, grp, off, k, W, counts[key], lim)
 		}
 		if v.pass {
